@@ -204,6 +204,22 @@ template <class FM, class FS, class K, class M> void flat_target(Src &s, Case &c
             K k2 = Keys<K>::make(k2i);
             snprintf(name, sizeof name, "map={{k%d,v%d},{k%d,v0}}", ki, vi, k2i);
             c.log("%s ", name);
+            if ((ki + k2i) % 3 == 0)
+            {
+                // a long list: 24 entries over the 8 keys, so every key comes several times with different values (the first
+                // one counts); the entries are a function of the three drawn indices
+#define C02_E(i) {Keys<K>::make((ki + (i) * (k2i * 2 + 1)) % NK), Vals<M>::make((vi + (i)) % 6)}
+#define C02_E24 C02_E(0), C02_E(1), C02_E(2), C02_E(3), C02_E(4), C02_E(5), C02_E(6), C02_E(7), C02_E(8), C02_E(9), C02_E(10), C02_E(11), C02_E(12), C02_E(13), C02_E(14), \
+                C02_E(15), C02_E(16), C02_E(17), C02_E(18), C02_E(19), C02_E(20), C02_E(21), C02_E(22), C02_E(23)
+                c.log("[24 entries] ");
+                fm = FM{C02_E24};
+                rm = std::map<K, M>{C02_E24};
+#undef C02_E24
+#undef C02_E
+                dup = true;
+                c.label("initlist_long_with_duplicates");
+                break;
+            }
             fm = FM{{k, v}, {k2, Vals<M>::make(0)}};
             rm = std::map<K, M>{{k, v}, {k2, Vals<M>::make(0)}};
             if (ki == k2i)
